@@ -272,10 +272,27 @@ fn s(b: &[u8]) -> &str {
     std::str::from_utf8(b).unwrap()
 }
 
-fn real_write(kind: &str, recs: &[Rec], wrap: usize, via_record: bool) -> Vec<u8> {
-    let mut out: Vec<u8> = vec![];
+/// A legal sink that accepts at most `max` bytes per write() call (pipes, sockets, compressors do that).
+struct ShortSink {
+    data: Vec<u8>,
+    max: usize,
+}
+impl std::io::Write for ShortSink {
+    fn write(&mut self, buf: &[u8]) -> std::io::Result<usize> {
+        let n = buf.len().min(self.max);
+        self.data.extend_from_slice(&buf[..n]);
+        Ok(n)
+    }
+    fn flush(&mut self) -> std::io::Result<()> {
+        Ok(())
+    }
+}
+
+/// wcap = 0: Writer::new (8 KiB BufWriter), else Writer::with_capacity(wcap); sink_max = 0: unlimited writes.
+fn real_write(kind: &str, recs: &[Rec], wrap: usize, via_record: bool, wcap: usize, sink_max: usize) -> Vec<u8> {
+    let mut sink = ShortSink { data: vec![], max: if sink_max == 0 { usize::MAX } else { sink_max } };
     if kind == "fasta" {
-        let mut w = if via_record { fasta::Writer::with_capacity(7, &mut out) } else { fasta::Writer::new(&mut out) };
+        let mut w = if wcap > 0 { fasta::Writer::with_capacity(wcap, &mut sink) } else { fasta::Writer::new(&mut sink) };
         if wrap > 0 {
             w.set_linewrap(Some(wrap));
         }
@@ -289,7 +306,7 @@ fn real_write(kind: &str, recs: &[Rec], wrap: usize, via_record: bool) -> Vec<u8
         }
         w.flush().unwrap();
     } else {
-        let mut w = if via_record { fastq::Writer::with_capacity(5, &mut out) } else { fastq::Writer::new(&mut out) };
+        let mut w = if wcap > 0 { fastq::Writer::with_capacity(wcap, &mut sink) } else { fastq::Writer::new(&mut sink) };
         for r in recs {
             if via_record {
                 let rec = fastq::Record::with_attrs(s(&r.id), r.desc.as_deref().map(s), &r.seq, &r.qual);
@@ -300,7 +317,16 @@ fn real_write(kind: &str, recs: &[Rec], wrap: usize, via_record: bool) -> Vec<u8
         }
         w.flush().unwrap();
     }
-    out
+    sink.data
+}
+
+fn write_event(log: &mut Log, kind: &str, recs: &[Rec], wrap: usize, via_record: bool, wcap: usize, sink: usize) -> Vec<u8> {
+    let mut written: Vec<u8> = vec![];
+    log.call("write", json!({"wrap": wrap, "via_record": if via_record {1} else {0}, "wcap": wcap, "sink": sink}), || {
+        written = real_write(kind, recs, wrap, via_record, wcap, sink);
+        json!({"b": bytes(&written)})
+    });
+    written
 }
 
 fn display(kind: &str, recs: &[Rec]) -> Vec<u8> {
@@ -638,24 +664,33 @@ pub fn drive(log: &mut Log) {
         // streams: (lay, wrap, crlf). lay = 1: bytes of the real writer (a `write` event precedes
         // them); lay = 2: layout built by the harness (re-wrapped / CRLF / multi-line FASTQ)
         let w0 = if kind == "fasta" { *rng.pick(&wraps) } else { 0 };
-        let mut streams: Vec<(i64, usize, bool)> = vec![(1, w0, false)];
+        // (lay, wrap, crlf, writer capacity (0 = Writer::new), sink: max bytes accepted per write() (0 = all))
+        let cap0 = if rng.coin() { 0 } else if kind == "fasta" { 7 } else { 5 };
+        let mut streams: Vec<(i64, usize, bool, usize, usize)> = vec![(1, w0, false, cap0, 0)];
+        {
+            // the same records through a small BufWriter into a sink that takes only part of a write() call
+            let wcap = *rng.pick(&[1usize, 5, 16, 64]);
+            let sink = *rng.pick(&[1usize, 7, 4096]);
+            let wrap = if kind == "fasta" { *rng.pick(&wraps) } else { 0 };
+            streams.push((1, wrap, false, wcap, sink));
+            let piece = |r: &Rec| if kind == "fasta" && wrap > 0 { r.seq.len().min(wrap) } else { r.seq.len() };
+            if recs.iter().any(|r| piece(r) >= wcap && piece(r) > sink) {
+                log.oblige("writer_sink_short_writes_beyond_capacity");
+            }
+        }
         if kind == "fasta" && !small {
-            streams.push((1, *rng.pick(&wraps), false));
+            streams.push((1, *rng.pick(&wraps), false, 0, 0));
         }
         let nlay = if small { 2 } else { 3 };
         for v in 0..nlay {
             let wrap = if kind == "fastq" && !wrapped_fq { 0 } else { *rng.pick(&wraps) };
-            streams.push((2, wrap, (v + i as usize) % 2 == 1));
+            streams.push((2, wrap, (v + i as usize) % 2 == 1, 0, 0));
         }
         let parsers: [&str; 2] = [kind, "either"];
-        for (sidx, &(layk, wrap, crlf)) in streams.iter().enumerate() {
+        for (sidx, &(layk, wrap, crlf, wcap, sink)) in streams.iter().enumerate() {
             let b: Vec<u8> = if layk == 1 {
                 let via_record = rng.coin();
-                let mut written: Vec<u8> = vec![];
-                log.call("write", json!({"wrap": wrap, "via_record": if via_record {1} else {0}}), || {
-                    written = real_write(kind, &recs, wrap, via_record);
-                    json!({"b": bytes(&written)})
-                });
+                let written = write_event(log, kind, &recs, wrap, via_record, wcap, sink);
                 if i % 3 == 0 && sidx == 0 {
                     log.call("display", json!({}), || json!({"b": bytes(&display(kind, &recs))}));
                 }
@@ -699,7 +734,7 @@ pub fn drive(log: &mut Log) {
                 }
             }
             // truncation of this stream
-            if sidx == 1 && layk == 1 {
+            if sidx > 0 && layk == 1 {
                 continue;
             }
             let cuts: Vec<usize> = if small && b.len() <= 90 {
@@ -734,6 +769,39 @@ pub fn drive(log: &mut Log) {
                 log.oblige("cut");
             }
         }
+    }
+
+    // ---------------- (b2) records longer than the default 8 KiB BufWriter, short-writing sinks
+    let nbigrec = log.opts.n(6, 24);
+    for i in 0..nbigrec {
+        case += 1;
+        if !log.mine(case) {
+            continue;
+        }
+        let mut rng = Rng::new(seed, 15, case);
+        let kind = if i % 2 == 0 { "fastq" } else { "fasta" };
+        let mut recs = vec![gen_rec(&mut rng, kind, 20, false, log)];
+        let len = 8192 + rng.range(0, 300) as usize;
+        let mut big = gen_rec(&mut rng, kind, 20, false, log);
+        big.seq = rng.seq(len, b"ACGTN");
+        if kind == "fastq" {
+            big.qual = printable(&mut rng, len, 33, &[]);
+            big.qual[0] = if i % 4 == 0 { b'@' } else { b'+' };
+        }
+        if rng.coin() { recs.push(big) } else { recs.insert(0, big) }
+        let cfg = json!({"cls": "rt", "kind": kind, "recs": recs.iter().map(rec_json).collect::<Vec<_>>()});
+        if !log.begin("bigrec", cfg) {
+            continue;
+        }
+        let sink = [1usize, 7, 4096][(i as usize / 2) % 3];
+        let wrap = if kind == "fasta" && i % 4 == 1 { 9000 } else { 0 };
+        let written = write_event(log, kind, &recs, wrap, i % 3 == 0, 0, sink);
+        log.oblige("writer_default_capacity_exceeded_short_sink");
+        let lay = Lay { lay: 1, wrap: wrap as i64, crlf: 0, cut: -1 };
+        let r = parse_event(log, kind, "iter", &written, 8192, &[], &lay);
+        note_items(log, &r);
+        let r = parse_event(log, "either", "iter", &written, 16, &[700, 3], &lay);
+        note_items(log, &r);
     }
 
     // ---------------- (e) damaged valid streams (ASCII): error paths on realistic input
